@@ -1,14 +1,14 @@
 SPECIFICATION Spec
 CONSTANTS
-  NG = 1
+  NG = 0
   NO = 1
-  ND = 1
-  NP = 1
+  ND = 3
+  NP = 2
   Names = {"a", "b"}
-  Vals = {1, 2}
-  Acts = {"CreateGroup", "CreateObject", "AddData", "Rename", "SetFlag", "SetVal", "Move", "AddToGroup", "RemoveFromGroup", "RemovePG", "RemoveViaWorkspace", "RemoveViaParent", "DropRef", "Collect", "Purge", "Copy", "Close", "Open", "MoveSame", "StripOpt"}
+  Vals = {1}
+  Acts = {"CreateObject", "AddData", "AddToGroup", "ScrubData", "RemoveFromGroup", "Close", "Open"}
   Deviations = {"CloseKeepsOrphans"}
-  MaxDepth = 6
+  MaxDepth = 8
 CONSTRAINT DepthBound
 VIEW vw
 INVARIANT TypeOK
